@@ -323,6 +323,12 @@ def passthrough(ctx):
                            why='a well receives the quantity several times', key='transfer looped per well')
     floor(ctx, 'nested transfer calls', n, 6)
     vectorize_once(ctx, 'C02.R3')
+    from .c01 import accumulator_is_view, writeback_locality
+    accumulator_is_view(ctx, 'C02.R3')      # the aliquot added to the paired destination well reaches the plate
+    before_ = len(ctx.obs)
+    writeback_locality(ctx)                 # ... and is stored in the well it was computed for
+    for o_ in ctx.obs[before_:]:
+        o_.rule = 'C02.R3'
     # the transfer relies on the storage conversions for the requested amount: they must map to the storage units
     unitspec.api_verified(ctx, 'C02.R1')
 
